@@ -114,6 +114,22 @@ def run(repo, res, tier):
             if rn in ("self", "kwargs") or (rn is not None and rn in {a.arg for a in fn.args.args}):
                 res.ob(f"K5:mut:{norm(n)}", False)
                 res.add(Finding("K5", rel, "BaseGeo.copy", norm(n), "copy() mutates self or its keyword values", n.lineno))
+    # ---- K6 (ORIGIN): nothing reachable from `self` is stored into the copy except through deepcopy
+    import origin_rules
+    from origin_rules import O, org_of, run_node
+    out, dom, it = run_node(geo.mod.name, fn, dict(self=O({"A:self"}), kwargs=origin_rules.Const({})), name="BaseGeo.copy",
+                            summaries={"add_iteration_suffix": lambda d, a, k_, n_: origin_rules.FRESH})
+    shared = []
+    for base, attr, orgs, n_ in getattr(dom, "attr_stores", []):
+        if base.split(".")[0] not in copy_vars:
+            continue
+        alias = sorted(o_ for o_ in orgs if o_.startswith("A:self") and not o_.endswith(".label") and ".label" not in o_)
+        res.ob(f"K6:{norm(n_)[:60]}", not alias, {"rule": "K6", "store": norm(n_), "value_origins": sorted(orgs)}, nontrivial=False)
+        if alias:
+            shared.append((n_, alias))
+    for n_, alias in shared:
+        res.add(Finding("K6", rel, "BaseGeo.copy", n_, f"the value stored into the copy still references the original's state ({alias}) - built without "
+                        "deepcopy, so the two objects share mutable state", n_.lineno))
     # ---- K3
     n_cls = 0
     for c in repo.classes.values():
